@@ -4,7 +4,9 @@
 PATCH=$1; P=$2; TIER=${3:-quick}; SEED=${4:-1}
 S=/tmp/mt
 mkdir -p $S
-rsync -a --delete --exclude target --exclude .git /repo/ $S/repo/
+# files that rsync restores get their old mtime back, and cargo would keep the artefact built from the
+# previous patch (source older than artefact = fresh): touch every file rsync had to update
+rsync -ai --delete --exclude target --exclude .git /repo/ $S/repo/ | awk '/^>f/ {print $2}' | while read f; do touch "$S/repo/$f"; done
 rsync -a --delete /verif/harness/ $S/harness/
 (cd $S/repo && patch -p1 -s < "$PATCH") || { echo "PATCH DOES NOT APPLY"; exit 2; }
 # touch patched files so cargo notices
